@@ -44,6 +44,11 @@ def run(ctx: Ctx):
     c16.count_cascade(ctx, "provenance.count-source", "unweighted_counts", ["unweighted_valid_counts", "unweighted_counts"],
                       "unweighted valid counts, else the response's unweighted counts (never a weighted measure)",
                       "an unweighted base is a number of respondents")
+    # which data slot a category's respondents are read from: Element.index is the position in the DATA order (a typedef
+    # "order" re-arranges the categories first) - else the bases count respondents of other, possibly missing, categories
+    from . import c01
+
+    c01.element_index_provenance(ctx)
     layouts_matrix(ctx)
     layouts_stripe(ctx)
     base_blocks(ctx)
